@@ -45,6 +45,22 @@ def gen(rng, tier):
             hists.append(["infer", "file"])
         for h in hists:
             cases.append({"kind": "hist", "recipe": V.enc_recipe(r), "hist": h, "erased": len(done)})
+    # un-annotated convolutions behind an input that is SMALLER than the (dilated) kernel: the size formula then yields zero or
+    # negative lengths; whatever inference declares must come back from a file / dictionary exactly like any other shape
+    import numpy as np
+    for _ in range(8 if tier == "quick" else 80):
+        nd = rng.choice([1, 2])
+        n = [rng.randint(1, 4) for _ in range(nd)]
+        k = [rng.randint(5, 9) for _ in range(nd)]
+        cin, cout = rng.choice([1, 2]), rng.choice([1, 3])
+        conv = {"k": "Conv1d" if nd == 1 else "Conv2d",
+                "args": {"input_shape": None, "weight": np.ones([cout, cin] + k, dtype="float32"), "stride": rng.choice([1, 2]),
+                         "padding": 0, "dilation": rng.choice([1, 2]), "groups": 1, "bias": np.zeros(cout, dtype="float32")}}
+        r = {"k": "NIRGraph", "nodes": {"input": {"k": "Input", "args": {"input_type": np.array([cin] + n, dtype=np.int64)}},
+                                        "conv": conv, "output": {"k": "Output", "args": {"output_type": None}}},
+             "edges": [("input", "conv"), ("conv", "output")]}
+        for h in (["infer", "file"], ["infer", "dict"], ["infer", "file", "infer"], ["infer", "dict", "infer", "file"]):
+            cases.append({"kind": "hist", "recipe": V.enc_recipe(r), "hist": h, "erased": 2})
     return cases
 
 
